@@ -842,6 +842,32 @@ func propC16(run *Run, n int) {
 		"n/4 pairs (b = mutation of a) for the diff/patch carrier check, n/10 documents with typed array nodes (raw() only); " +
 		"(3) n/3 constructed Go values of every Raw shape for NewJsonNode; non-trivial = not the void document; distinct = distinct wire encoding"
 	r := NewRng(run.Seed)
+	defer func() {
+		if c16Bins != nil {
+			c16Bins.cleanup()
+			c16Bins = nil
+		}
+	}()
+	// process level: the real binaries translate JSON -> YAML -> JSON (and YAML -> JSON -> YAML), stdout and -o
+	{
+		rc := NewRng(run.Seed ^ 0x16c11)
+		fixed := []*Val{VObj("name", VStr("nginx")), VObj("version", VStr("1.10"), "on", VStr("yes"), "n", VStr("012"), "e", VStr("1e3"), "t", VStr("~"), "c", VStr("a: b"), "d", VStr("- x"), "h", VStr("# no")),
+			VArr(VStr("null"), VStr("true"), VStr(""), VStr(" "), VStr("0x1f"), VStr("1_000"), VStr(".5"), VStr("2001-01-01"), VNull(), VBool(true), VNum(1.5), VNum(1e21)), VStr("no"), VNum(3), VArr(), VObj()}
+		k := 0
+		for _, d := range fixed {
+			addC16CliCase(run, d, k%2 == 0, k%3 == 0, false)
+			k++
+		}
+		for i := 0; i < n/120+6; i++ {
+			cfg := c16Cfg(rc)
+			cfg.AllowNull = true
+			d := cfg.Doc(rc, 0)
+			if d.K == KVoid || hasMergeKey(d) || hasNegZeroVal(d) || c16HasVoid(d) {
+				continue
+			}
+			addC16CliCase(run, d, rc.Chance(1, 2), rc.Chance(1, 2), rc.Chance(1, 3))
+		}
+	}
 	addC16DocCase(run, VVoid(), "void")
 	for _, s := range c16Strs {
 		addC16DocCase(run, VStr(s), "pool")
